@@ -87,7 +87,7 @@ let () =
         sst := init_sstate (z_of_i64 (Int64.of_string f.(2))) (nof f.(3))
       | "end" -> print_endline "end"
       | a when !stopped -> ()
-      | ("start" | "resume" | "drain") as a ->
+      | ("start" | "resume" | "drain" | "startsweept" | "startsweepe" | "drainsweeps") as a ->
         Printf.printf "act %s\n" a;
         if not !sched then begin sched := true; sst := { s_db = (!st).a_db; s_threads = []; s_epochs = [] } end;
         let print_evs evs =
@@ -109,6 +109,14 @@ let () =
            let c = make_cmd (f.(2) = "L") (nof f.(3)) (nof f.(4)) (nof f.(5)) (nof f.(6)) (nof f.(7)) (nof f.(8)) (nof f.(9)) (nof f.(10)) (nof f.(11)) (nof f.(12)) (bytes_of_hex f.(13)) in
            one (SStart (nof f.(1), c))
          | "resume" -> one (SResume (nof f.(1)))
+         | "startsweept" -> one (SStartSweep true)
+         | "startsweepe" -> one (SStartSweep false)
+         | "drainsweeps" ->
+           let first_sweep () =
+             let rec go i = function [] -> -1 | TSweep _ :: _ -> i | _ :: r -> go (i + 1) r in go 0 (!sst).s_threads in
+           let n = ref 0 in
+           while first_sweep () >= 0 && !n < 100000 && not !stopped do
+             one (SResume (n_of_i64 (Int64.of_int (first_sweep ())))); incr n done
          | _ ->
            let n = ref 0 in
            while (!sst).s_threads <> [] && !n < 100000 && not !stopped do one (SResume N0); incr n done);
